@@ -364,7 +364,8 @@ namespace GeographicLib {
      * @param[out] m arc minutes.
      **********************************************************************/
     static void Encode(real ang, real& d, real& m) {
-      d = int(ang); m = real(Math::dm) * (ang - d);
+      using std::trunc;
+      d = trunc(ang); m = real(Math::dm) * (ang - d);
     }
 
     /**
